@@ -27,7 +27,7 @@ ASSUMPTIONS = [
     "copulas: finite-variation margins, level-0 grids of at most 7 points per axis, levels 1..2",
 ]
 REQUIRED_COUNTERS = ["kernels_measured", "conservation_checks", "coarse_drift_checks", "coarse_diffusion_checks",
-                     "coupled_paths_replayed", "nd_kernels_measured"]
+                     "coupled_paths_replayed", "nd_kernels_measured", "infinite_variation_copula_chains"]
 MIN_NONTRIVIAL = {"quick": 30, "thorough": 250}
 SHARD_TIMEOUT = {"quick": 900, "thorough": 7200}
 
@@ -56,10 +56,8 @@ def gen_cases(tier, seed):
     for j in range(4 if not thorough else 30):
         dim = 2 if j % 4 else 3
         cm = W.gen_copula_model_spec(rng, dim=dim, kind=["clayton", "clayton", "independent", "dependent"][j % 4])
+        W.limit_variation(rng, cm, allow_infinite=(dim == 2 and j % 4 == 1), y_hi=0.7)
         for ms in cm["margins"]:
-            if ms["family"] == "CGMY" and ms["params"]["y"] >= 1.0:
-                ms["params"]["y"] = W.r6(rng.uniform(0.05, 0.7))
-                ms["branch"] = "0<y<1"
             if ms["family"] == "MERTON":
                 ms["params"]["mu_j"] = min(ms["params"]["mu_j"], 0.05)
                 ms["params"]["sigma_j"] = max(ms["params"]["sigma_j"], 0.08)
@@ -376,6 +374,8 @@ def _run_nd(case, R, src):
     cm, method, mode = case["model"], case["method"], case["mode"]
     label = W.copula_label(cm)
     model = W.build_copula_model(cm)
+    if not model.jump_of_finite_variation():
+        R.hit("infinite_variation_copula_chains")
     g = dict(case["grid"])
     try:
         grid = G.build_grid(g, model)
